@@ -12,6 +12,7 @@ CT = {"calendar": "text/calendar", "addressbook": "text/vcard"}
 EXT_CT = {".ics": "text/calendar", ".vcf": "text/vcard", ".txt": "text/plain", ".bin": "application/octet-stream"}
 
 AUDIT_PROPS = [X.P_RESOURCETYPE, X.P_ETAG, X.P_CTYPE, X.P_CTAG_CS, X.P_CTAG_DAV, X.P_SYNCTOKEN]
+AUDIT_COLPROPS = [X.P_DISPLAYNAME, X.P_CALCOLOR, X.P_CALDESC, X.P_ABDESC, X.P_CALORDER]
 
 
 def sha(b):
@@ -426,6 +427,17 @@ class World:
                 obs["problems"].append("listing: member %r listed twice" % nm)
             listed[nm] = {"etag_propfind": resp.prop_text(X.P_ETAG), "ctype": resp.prop_text(X.P_CTYPE)}
         obs["listed"] = listed
+        # a second, separate read of the collection's own properties (after the tags were taken:
+        # if reading a property writes, the next audit sees the tags moved with no write in between)
+        s2, r2 = self.propfind(self.url(colpath), AUDIT_COLPROPS, depth="0", record=False, op="audit-colprops")
+        obs["colprops"] = {}
+        if r2.status == 207:
+            try:
+                rs2, _ = X.parse_multistatus(r2.body)
+                if rs2:
+                    obs["colprops"] = {k: rs2[0].prop_text(k) for k in AUDIT_COLPROPS}
+            except X.MalformedXML:
+                pass
         return obs
 
     def fetch(self, colpath, name, method="GET"):
